@@ -112,13 +112,6 @@ Fixpoint params_ok (fl : list (N * kind)) (sc : list N) (ps : list N) : bool :=
   | p :: ps' => fresh_id fl sc p && params_ok fl (p :: sc) ps'
   end.
 
-(* a function-valued argument: the name of a function in scope (a defined function or a function parameter) *)
-Definition frag_fexpr (fl : list (N * kind)) (x : expr) : option kind :=
-  match x with
-  | ERead f _ => match fun_kind fl f with Some (KF a r) => Some (KF a r) | _ => None end
-  | _ => None
-  end.
-
 (* PLAIN expressions; sc = the user variables in scope.
    if-expressions: an `else` branch only in last position; the bodies are statement lists in their own scope. *)
 Fixpoint frag_expr (fl : list (N * kind)) (k : nat) (sc : list N) (x : expr) {struct k} : bool :=
@@ -141,13 +134,30 @@ Fixpoint frag_expr (fl : list (N * kind)) (k : nat) (sc : list N) (x : expr) {st
                    | [], [] => true
                    | KP :: ks', a :: args' => frag_expr fl k sc a && go ks' args'
                    | K :: ks', a :: args' =>
-                       match frag_fexpr fl a with Some K' => kind_eqb K' K | None => false end && go ks' args'
+                       match frag_fexpr fl k sc a with Some K' => kind_eqb K' K | None => false end && go ks' args'
                    | _, _ => false
                    end) ks args
             | _ => false
             end
       | EIf branches _ => frag_branches fl k sc branches
       | _ => false
+      end
+  end
+
+(* a function-valued argument: the name of a function in scope (a defined function or a function parameter), or a
+   lambda  fn p1: T1, ..., pn: Tn -> T do ... end  whose body sees what is in scope here *)
+with frag_fexpr (fl : list (N * kind)) (k : nat) (sc : list N) (x : expr) {struct k} : option kind :=
+  match k with
+  | O => None
+  | S k =>
+      match x with
+      | ERead f _ => match fun_kind fl f with Some (KF a r) => Some (KF a r) | _ => None end
+      | EFunction _ params _ body _ _ =>
+          let ps := param_ids params in
+          let ks := param_kinds params in
+          if params_ok fl sc ps && is_some (frag_stmts (snd (bind_scope ps ks sc fl)) k (fst (bind_scope ps ks sc fl)) body)
+          then Some (KF ks KP) else None
+      | _ => None
       end
   end
 
@@ -224,7 +234,7 @@ Fixpoint frag_args (fl : list (N * kind)) (k : nat) (sc : list N) (ks : list kin
   | [], [] => true
   | KP :: ks', a :: args' => frag_expr fl k sc a && frag_args fl k sc ks' args'
   | K :: ks', a :: args' =>
-      match frag_fexpr fl a with Some K' => kind_eqb K' K | None => false end && frag_args fl k sc ks' args'
+      match frag_fexpr fl k sc a with Some K' => kind_eqb K' K | None => false end && frag_args fl k sc ks' args'
   | _, _ => false
   end.
 
@@ -280,8 +290,9 @@ Fixpoint frag_items (pv sv bound : N) (k : nat) (scg : list N) (fl : list (N * k
       end
   end.
 
-(* STAGE 4e (4d-s + FUNCTIONS AS ARGUMENTS: the name of a function -- a top-level function, a local closure, a
-   function parameter -- passed to a parameter of function type, which the callee calls or passes on; kinds, below);
+(* STAGE 4f (4e + LAMBDA expressions as arguments; 4e = 4d-s + FUNCTIONS AS ARGUMENTS: the name of a function -- a
+   top-level function, a local closure, a function parameter -- passed to a parameter of function type, which the callee
+   calls or passes on; kinds, below);
    4d-s = 4c' + STRING values: literals, + as concatenation, == != < <= > >=, <=>, print;
    4c' = 4c + local functions in ANY statement list: blocks, loop bodies, if-branches; 4c = 4b + LOCAL FUNCTIONS:
    closures over the variables of the enclosing function, mutable ones included, called by name, see frag_stmts;
@@ -313,13 +324,14 @@ Fixpoint frag_items (pv sv bound : N) (k : nat) (scg : list N) (fl : list (N * k
    the six comparisons (on two ints or on two strings: byte-wise lexicographic order),
    <=> (assert-equal), and/or/not, unary minus, calls print(e), calls f(a1, ..., an) of functions by
    name (top-level, local, or a function parameter; an argument ai is a plain expression or, for a parameter of
-   function kind, the name of a function of that kind), and if/elif/else expressions and statements whose branches are statement lists.
+   function kind, the name of a function of that kind or a lambda expression  fn p1: T1, ... -> T do ... end  whose
+   body is a function body of the fragment over what is in scope there), and if/elif/else expressions and statements whose branches are statement lists.
    KINDS.  Every value is plain (int, bool, string, nil) or a function; the kind of a parameter is read off its
    declared type (`fn T1, ..., Tn -> T` is a function kind, everything else plain).  Function values exist only as the
-   values of function names (definitions `f :: fn ...` and parameters of function kind); such a name can be called and
-   passed to a parameter of the same function kind, nothing else: so print, the operators, the conditions and the
+   values of function names (definitions `f :: fn ...` and parameters of function kind) and of lambda expressions in
+   argument position; a function name can be called and passed to a parameter of the same function kind, nothing else: so print, the operators, the conditions and the
    assignments only ever see plain values, and the result of every call is plain.
-   NOT in the fragment: `ret` without a value (it returns Sylt's nil, the table __NIL), lambda expressions, functions
+   NOT in the fragment: `ret` without a value (it returns Sylt's nil, the table __NIL), functions
    that return functions or store them in variables, blobs, tuples, lists, enums/case, floats, division. *)
 Definition frag (k : nat) (r : resolved) : bool :=
   let bound := N.of_nat (length (r_vars r)) + 1 in
